@@ -18,7 +18,6 @@ import (
 	"bytes"
 	"crypto/sha1"
 	"fmt"
-	"math"
 	"math/rand"
 	"os"
 	"path/filepath"
@@ -81,8 +80,29 @@ func (s *crSess) readImage(dir string) crImage {
 }
 
 // materialise writes the image sparsely (data prefix, then ftruncate to the size).
+var crJudgeBase string
+
+// judgeScratch: a directory for a materialised image. Images are opened hundreds of times per
+// session; on tmpfs the fsyncs badger issues while opening/closing them cost nothing.
+func judgeScratch() string {
+	if crJudgeBase == "" {
+		crJudgeBase = fmt.Sprintf("/dev/shm/verif-crash-%d", os.Getpid())
+		if err := os.MkdirAll(crJudgeBase, 0o755); err != nil {
+			crJudgeBase = "-"
+		}
+	}
+	if crJudgeBase == "-" {
+		return scratchDir()
+	}
+	sessCounter++
+	d := filepath.Join(crJudgeBase, fmt.Sprintf("img-%d", sessCounter))
+	os.RemoveAll(d)
+	os.MkdirAll(d, 0o755)
+	return d
+}
+
 func (s *crSess) materialise(img crImage) string {
-	d := scratchDir()
+	d := judgeScratch()
 	for name, f := range img {
 		p := filepath.Join(d, name)
 		fp, err := os.Create(p)
@@ -215,6 +235,7 @@ func (s *crSess) onEvent(ev badger.VEvent) {
 		e.tok = "syncdir"
 	case badger.VevMkdir, badger.VevLock, badger.VevRenameFrom:
 		e.tok = ""
+		_, e.file = crFileTok(ev.Path)
 	default:
 		ft, base := crFileTok(ev.Path)
 		e.file = base
@@ -404,7 +425,11 @@ func crCanon(es []crStored) string {
 		if e.del {
 			d = 1
 		}
-		fmt.Fprintf(&sb, "%s@%d:%d:%s;", hx([]byte(e.key)), e.ver, d, hx(e.val))
+		v := hx(e.val)
+		if e.rderr != "" {
+			v = "!" // value-log pointer that cannot be followed
+		}
+		fmt.Fprintf(&sb, "%s@%d:%d:%s;", hx([]byte(e.key)), e.ver, d, v)
 	}
 	return sb.String()
 }
@@ -419,14 +444,18 @@ type crVerdict struct {
 // `exact`: no compaction or GC had finished before the crash, so the stored version set must
 // equal the writes of commits[:m] exactly.
 func (s *crSess) judgeImage(img crImage, acked, issued int, exact bool, prop string) crVerdict {
-	var v crVerdict
-	fail := func(tag, msg string) { v.fails = append(v.fails, "["+tag+"] "+msg) }
 	d := s.materialise(img)
 	defer os.RemoveAll(d)
-	db, err := badger.Open(s.opts(d))
+	return s.judgeDir(d, img.names(), acked, issued, exact, prop)
+}
+
+func (s *crSess) judgeDir(d, names string, acked, issued int, exact bool, prop string) crVerdict {
+	var v crVerdict
+	fail := func(tag, msg string) { v.fails = append(v.fails, "["+tag+"] "+msg) }
+	db, err := badger.Open(s.opts(d).WithSyncWrites(false))
 	if err != nil {
 		v.out = "err:" + crOpenErrKind(err)
-		fail(prop+"-open", fmt.Sprintf("Open of the crash image failed: %v (files: %s)", err, img.names()))
+		fail(prop+"-open", fmt.Sprintf("Open of the crash image failed: %v (files: %s)", err, names))
 		return v
 	}
 	defer db.Close()
@@ -612,7 +641,12 @@ func parseCrEnts(w string) []crEnt {
 
 func execCrash(intents []string, st *Stats) (final, outs, oracle []string) {
 	s := &crSess{st: st}
-	defer func() { s.closeAll() }()
+	defer func() {
+		s.closeAll()
+		if crJudgeBase != "" && crJudgeBase != "-" {
+			os.RemoveAll(crJudgeBase)
+		}
+	}()
 	emit := func(op, out string) {
 		final = append(final, op)
 		outs = append(outs, out)
@@ -819,6 +853,9 @@ func execCrash(intents []string, st *Stats) (final, outs, oracle []string) {
 				// leave the live DB alone while images are judged
 			}
 			s.crashes(kv, emit, fail)
+			if s.cfg.sync && kvInt(kv, "power", 1) != 0 {
+				s.powerLoss(kv, emit, fail)
+			}
 		default:
 			emit(line, "bad-op")
 		}
@@ -849,6 +886,9 @@ func (s *crSess) crashes(kv map[string]string, emit func(string, string), fail f
 		}
 		if e.tok == "" {
 			continue
+		}
+		if k := s.stepKind[e.step]; k == "close" || k == "compact" {
+			e.actor = 'W' // strictly sequential steps
 		}
 		if e.actor == 'F' {
 			fc++
@@ -901,9 +941,6 @@ func (s *crSess) crashes(kv map[string]string, emit func(string, string), fail f
 	}
 }
 
-func (s *crSess) c07(emit func(string, string), fail func(string)) {
-	emit("c07", "todo")
-}
 
 // ---------------------------------------------------------------- generator
 
@@ -920,8 +957,11 @@ func genCrashSession(rng *rand.Rand, st *Stats) []string {
 	if params["sync"] != "" {
 		sync = params["sync"] == "1"
 	}
-	memsz := pick(rng, 4096, 8192, 8192, 16384)
-	thr := pick(rng, 16, 32, 32)
+	memsz := pick(rng, 4096, 4096, 8192, 16384)
+	thr := pick(rng, 16, 32, 200, 200)
+	if memsz == 4096 && rng.Intn(2) == 0 {
+		thr = 200
+	}
 	vmax := pick(rng, 3, 5, 1000)
 	keep := pick(rng, 1000, 1000, 1)
 	var ops []string
@@ -932,13 +972,20 @@ func genCrashSession(rng *rand.Rand, st *Stats) []string {
 	for len(keys) < nkeys {
 		keys = append(keys, genUserKey(rng, 1, 3))
 	}
-	nsteps := 12 + rng.Intn(14)
+	nsteps := 14 + rng.Intn(22)
 	if v, err := strconv.Atoi(params["steps"]); err == nil {
 		nsteps = v
 	}
 	maxTxnBytes := memsz * 15 / 100
+	burstAt := -1
+	if memsz <= 8192 && thr == 200 {
+		burstAt = rng.Intn(nsteps)
+	}
 	for i := 0; i < nsteps; i++ {
 		r := rng.Intn(100)
+		if i == burstAt {
+			r = 70
+		}
 		switch {
 		case r < 70:
 			ne := 1 + rng.Intn(3)
@@ -960,8 +1007,8 @@ func genCrashSession(rng *rand.Rand, st *Stats) []string {
 						n = thr + rng.Intn(40) // value log
 					case 1:
 						n = thr - 1
-					case 2:
-						n = 100 + rng.Intn(200) // fills the memtable quickly
+					case 2, 3:
+						n = 100 + rng.Intn(200) // fills the memtable quickly (inline when thr=200)
 					default:
 						n = rng.Intn(24)
 					}
@@ -978,6 +1025,20 @@ func genCrashSession(rng *rand.Rand, st *Stats) []string {
 				parts = append(parts, fmt.Sprintf("%s:%d:%s", hx(k), b2i(del), hx(v)))
 			}
 			ops = append(ops, "commit "+strings.Join(parts, ","))
+		case r < 73 && memsz <= 8192 && thr == 200:
+			// burst of fat single-entry commits: the memtable fills up and rotates inside a commit
+			nb := memsz/300 + rng.Intn(8)
+			for j := 0; j < nb; j++ {
+				k := keys[rng.Intn(len(keys))]
+				n := 200 + rng.Intn(60)
+				if n+40 > maxTxnBytes/2 {
+					n = maxTxnBytes/2 - 41
+				}
+				v := make([]byte, n)
+				rng.Read(v)
+				v[n-1] |= 1
+				ops = append(ops, fmt.Sprintf("commit %s:0:%s", hx(k), hx(v)))
+			}
 		case r < 80:
 			ops = append(ops, "flush")
 		case r < 88:
@@ -992,4 +1053,417 @@ func genCrashSession(rng *rand.Rand, st *Stats) []string {
 	return ops
 }
 
-var _ = math.MaxInt32
+
+// ---------------------------------------------------------------- C07: close / reopen
+
+func crTreeHash(dir string) string {
+	ents, _ := os.ReadDir(dir)
+	var parts []string
+	for _, e := range ents {
+		if e.Name() == "LOCK" {
+			continue
+		}
+		b, err := os.ReadFile(filepath.Join(dir, e.Name()))
+		if err != nil {
+			parts = append(parts, e.Name()+":ERR")
+			continue
+		}
+		parts = append(parts, fmt.Sprintf("%s:%d:%x", e.Name(), len(b), sha1.Sum(b)))
+	}
+	sort.Strings(parts)
+	return strings.Join(parts, " ")
+}
+
+// every read the history can distinguish: all stored versions, plus DB.get of every key at
+// every commit timestamp and at the newest one
+func (s *crSess) allReads(db *badger.DB) string {
+	stored := crDumpDB(db)
+	var sb strings.Builder
+	sb.WriteString(crCanon(stored))
+	keys := map[string]bool{}
+	for _, c := range s.commits {
+		for _, e := range c.ents {
+			keys[string(e.key)] = true
+		}
+	}
+	var ks []string
+	for k := range keys {
+		ks = append(ks, k)
+	}
+	sort.Strings(ks)
+	tss := []uint64{^uint64(0)}
+	for _, c := range s.commits {
+		tss = append(tss, c.ts)
+	}
+	for _, k := range ks {
+		for _, ts := range tss {
+			e, ok, err := badger.VerifGetAt(db, []byte(k), ts)
+			switch {
+			case err != nil:
+				fmt.Fprintf(&sb, "|%s@%d:err:%v", hx([]byte(k)), ts, err)
+			case !ok:
+				fmt.Fprintf(&sb, "|%s@%d:none", hx([]byte(k)), ts)
+			default:
+				fmt.Fprintf(&sb, "|%s@%d:%d:%d:%s:%s", hx([]byte(k)), ts, e.Version, e.Meta&1, hx(e.Value), e.ReadErr)
+			}
+		}
+	}
+	return sb.String()
+}
+
+func crDigest(db *badger.DB) string {
+	stored := crDumpDB(db)
+	return fmt.Sprintf("ok next=%d n=%d h=%016x", badger.VerifNextTxnTs(db), len(stored), fnv64(crCanon(stored)))
+}
+
+// c07: Close, hash the tree, reopen read-only, read everything, re-hash (nothing changed),
+// reopen read-write with different compaction options, compare the reads with the pre-close ones.
+func (s *crSess) c07(emit func(string, string), fail func(string)) {
+	pre := s.allReads(s.db)
+	err := s.db.Close()
+	s.db = nil
+	closeTok := s.stepTokens(s.steps, true)
+	if err != nil {
+		emit("close", "err:"+err.Error())
+		return
+	}
+	emit("close", closeTok)
+	s.stepKind = append(s.stepKind, "close")
+	s.steps++
+	h1 := crTreeHash(s.dir)
+	// ---- read-only
+	ro, err := badger.Open(s.opts(s.dir).WithReadOnly(true))
+	if err != nil {
+		emit("open-ro", "err:open:"+crOpenErrKind(err))
+		fail("[C07-ro-open] read-only Open after a clean Close failed: " + err.Error())
+	} else {
+		emit("open-ro", s.stepTokens(s.steps, false))
+		for _, e := range s.events {
+			if e.step == s.steps && e.tok != "" && e.Kind != badger.VevSyncDir && e.Kind != badger.VevSync && e.Kind != badger.VevClose {
+				fail(fmt.Sprintf("[C07-ro-mutates] read-only Open performed %s", e.tok))
+			}
+		}
+		s.stepKind = append(s.stepKind, "open-ro")
+		s.steps++
+		if got := s.allReads(ro); got != pre {
+			fail(fmt.Sprintf("[C07-ro-reads] reads after a read-only reopen differ from the reads before Close: before %.300s after %.300s", pre, got))
+		}
+		emit("dump", crDigest(ro))
+		_ = ro.View(func(txn *badger.Txn) error {
+			it := txn.NewIterator(badger.IteratorOptions{AllVersions: true, PrefetchValues: true, PrefetchSize: 10})
+			defer it.Close()
+			for it.Rewind(); it.Valid(); it.Next() {
+				_, _ = it.Item().ValueCopy(nil)
+			}
+			return nil
+		})
+		if err := ro.Close(); err != nil {
+			fail("[C07-ro-close] " + err.Error())
+		}
+		for _, e := range s.events {
+			if e.step == s.steps && e.tok != "" && e.Kind != badger.VevSyncDir && e.Kind != badger.VevSync && e.Kind != badger.VevClose {
+				fail(fmt.Sprintf("[C07-ro-mutates] closing the read-only DB performed %s", e.tok))
+			}
+		}
+		emit("close-ro", s.stepTokens(s.steps, true))
+		s.stepKind = append(s.stepKind, "close")
+		s.steps++
+		if h2 := crTreeHash(s.dir); h2 != h1 {
+			fail(fmt.Sprintf("[C07-ro-tree-changed] directory before the read-only session: %s ; after: %s", h1, h2))
+		}
+	}
+	// ---- read-write with other compaction settings
+	o := s.opts(s.dir).WithNumLevelZeroTables(3).WithNumLevelZeroTablesStall(9).WithBaseTableSize(1 << 20).
+		WithLevelSizeMultiplier(10).WithBaseLevelSize(5 << 20).WithNumMemtables(3)
+	db, err := badger.Open(o)
+	if err != nil {
+		emit("open", "err:open:"+crOpenErrKind(err))
+		fail("[C07-reopen] Open after a clean Close failed: " + err.Error())
+		return
+	}
+	s.db = db
+	s.barrier()
+	emit("open", s.stepTokens(s.steps, false))
+	s.stepKind = append(s.stepKind, "open")
+	s.steps++
+	if got := s.allReads(db); got != pre {
+		fail(fmt.Sprintf("[C07-rw-reads] reads after reopening with other compaction options differ: before %.300s after %.300s", pre, got))
+	}
+	emit("dump", crDigest(db))
+	s.st.Inc("c07")
+}
+
+// ---------------------------------------------------------------- C10: power loss
+
+// identity of a file = the event that created it (0 = there before recording started)
+type crPower struct {
+	vol  map[string]int    // name -> identity (volatile directory)
+	dur  map[string]int    // name -> identity (as of the last syncdir)
+	sync map[int]crFile // identity -> content as of its last sync (a never-synced file: zeros of its created size)
+}
+
+func (s *crSess) powerLoss(kv map[string]string, emit func(string, string), fail func(string)) {
+	nrand := kvInt(kv, "prand", 2)
+	rng := rand.New(rand.NewSource(int64(len(s.events))*7919 + 1))
+	pw := crPower{vol: map[string]int{}, dur: map[string]int{}, sync: map[int]crFile{}}
+	never := map[int]bool{}     // identities never synced
+	deadVol := map[int]crFile{} // unlinked identities: their page-cache content
+	wcP, fcP, curStepP := 0, 0, -1
+	empty := crFile{size: 0, blob: s.putBlob(nil)}
+	judged := map[string]bool{}
+	var renameFrom string
+	for i, e := range s.events {
+		g := e.Seq
+		img := s.snaps[i]
+		// ---- update the durable / volatile bookkeeping with event e
+		switch e.Kind {
+		case badger.VevCreate:
+			if !crIgnoredFile(e.file) {
+				pw.vol[e.file] = g
+				// the size given by create+ftruncate is taken to be durable with the entry
+				pw.sync[g] = crFile{size: e.A, blob: empty.blob}
+				never[g] = true
+			}
+		case badger.VevWrite:
+			if e.file == "REWRITE-KEYREGISTRY" || e.file == "KEYREGISTRY" {
+				if id, ok := pw.vol[e.file]; ok { // opened with O_DSYNC
+					pw.sync[id] = img[e.file]
+					delete(never, id)
+				}
+			}
+		case badger.VevSync, badger.VevClose:
+			if id, ok := pw.vol[e.file]; ok {
+				pw.sync[id] = img[e.file]
+				delete(never, id)
+			}
+		case badger.VevDelete, badger.VevRemove:
+			if id, ok := pw.vol[e.file]; ok {
+				if e.Kind == badger.VevDelete {
+					deadVol[id] = empty // MmapFile.Delete: ftruncate(0), then unlink
+				} else if i > 0 {
+					deadVol[id] = s.snaps[i-1][e.file]
+				}
+			}
+			delete(pw.vol, e.file)
+		case badger.VevRenameFrom:
+			renameFrom = e.file
+		case badger.VevRename:
+			if id, ok := pw.vol[renameFrom]; ok {
+				delete(pw.vol, renameFrom)
+				pw.vol[e.file] = id
+			}
+		case badger.VevSyncDir:
+			pw.dur = map[string]int{}
+			for k, v := range pw.vol {
+				pw.dur[k] = v
+			}
+		}
+		if e.step != curStepP {
+			curStepP, wcP, fcP = e.step, 0, 0
+		}
+		if e.tok == "" {
+			continue
+		}
+		act := e.actor
+		if k := s.stepKind[e.step]; k == "close" || k == "compact" {
+			act = 'W'
+		}
+		if act == 'F' {
+			fcP++
+		} else {
+			wcP++
+		}
+		// power-loss points: the end of every logical step (acknowledgement points) and every
+		// event that changes what is durable or which names exist
+		lastOfStep := i+1 == len(s.events) || s.events[i+1].step != e.step
+		switch e.Kind {
+		case badger.VevCreate, badger.VevDelete, badger.VevRemove, badger.VevRename, badger.VevSyncDir:
+		case badger.VevSync, badger.VevWrite:
+			if e.file != "MANIFEST" && !lastOfStep {
+				continue
+			}
+		default:
+			if !lastOfStep {
+				continue
+			}
+		}
+		acked, issued := s.ackedIssued(g)
+		exact := s.exactAt(g)
+		// ---- the unsynced items at this point
+		type item struct {
+			kind string // "entry" or "data"
+			name string
+			id   int
+		}
+		var items []item
+		names := map[string]bool{}
+		for k := range pw.vol {
+			names[k] = true
+		}
+		for k := range pw.dur {
+			names[k] = true
+		}
+		var ns []string
+		for k := range names {
+			ns = append(ns, k)
+		}
+		sort.Strings(ns)
+		for _, n := range ns {
+			v, vok := pw.vol[n]
+			d, dok := pw.dur[n]
+			if vok != dok || v != d {
+				items = append(items, item{"entry", n, 0})
+			}
+		}
+		// identities reachable through either directory: live ones by their volatile name,
+		// unlinked ones by the durable name that still points at them
+		ids := map[int]string{}
+		live := map[int]bool{}
+		for _, n := range ns {
+			if v, ok := pw.vol[n]; ok {
+				ids[v] = n
+				live[v] = true
+			}
+		}
+		for _, n := range ns {
+			if d, ok := pw.dur[n]; ok && !live[d] {
+				ids[d] = n
+			}
+		}
+		var idl []int
+		for id := range ids {
+			idl = append(idl, id)
+		}
+		sort.Ints(idl)
+		volContent := func(id int) crFile {
+			if live[id] {
+				return img[ids[id]]
+			}
+			return deadVol[id]
+		}
+		durContent := func(id int) crFile { return pw.sync[id] }
+		for _, id := range idl {
+			if volContent(id) != durContent(id) {
+				items = append(items, item{"data", ids[id], id})
+			}
+		}
+		if len(items) == 0 {
+			continue
+		}
+		// build(lost): the image in which exactly the items in `lost` have their old version
+		build := func(lost map[int]bool) crImage {
+			out := crImage{}
+			lostEntry := map[string]bool{}
+			lostData := map[int]bool{}
+			for ix, it := range items {
+				if lost[ix] {
+					if it.kind == "entry" {
+						lostEntry[it.name] = true
+					} else {
+						lostData[it.id] = true
+					}
+				}
+			}
+			for _, n := range ns {
+				bind, ok := pw.vol[n]
+				if lostEntry[n] {
+					bind, ok = pw.dur[n]
+				}
+				if !ok {
+					continue
+				}
+				if lostData[bind] {
+					out[n] = pw.sync[bind]
+				} else {
+					out[n] = volContent(bind)
+				}
+			}
+			return out
+		}
+		run := func(label string, lost map[int]bool, tagOf func(crVerdict) string) (bool, crVerdict) {
+			im := build(lost)
+			sig := fmt.Sprintf("%s|%d|%d|%v", im.names(), acked, issued, exact)
+			for _, f := range im {
+				sig += fmt.Sprintf("%x", f.blob[:6])
+			}
+			if ok, seen := judged[sig]; seen {
+				return ok, crVerdict{}
+			}
+			v := s.judgeImage(im, acked, issued, exact, "C10")
+			judged[sig] = len(v.fails) == 0
+			var lostS []string
+			for ix, it := range items {
+				if lost[ix] {
+					lostS = append(lostS, it.kind+":"+crTokOfName(it.name))
+				}
+			}
+			emit(fmt.Sprintf("power step=%d w=%d f=%d ev=%d %s lost=%s", e.step, wcP, fcP, g, label, strings.Join(lostS, ",")), v.out)
+			s.st.Inc("power:" + label)
+			tag := ""
+			if tagOf != nil {
+				tag = tagOf(v)
+			}
+			for _, f := range v.fails {
+				fail(tag + f)
+			}
+			return len(v.fails) == 0, v
+		}
+		// single losses first: they attribute a failure to one specific unsynced item
+		// F4 class: the directory entry of a .mem/.vlog/.sst file created after the last
+		// directory fsync (badger never fsyncs the directory for these)
+		f4 := func(it item) bool {
+			if it.kind != "entry" {
+				return false
+			}
+			_, inDur := pw.dur[it.name]
+			_, inVol := pw.vol[it.name]
+			return inVol && !inDur && (strings.HasSuffix(it.name, ".mem") || strings.HasSuffix(it.name, ".vlog") || strings.HasSuffix(it.name, ".sst"))
+		}
+		for ix, it := range items {
+			it := it
+			run("single", map[int]bool{ix: true}, func(v crVerdict) string {
+				if f4(it) {
+					return "[F4:no-dirsync-new-file] "
+				}
+				_, inVol := pw.vol[it.name]
+				if it.kind == "entry" && !inVol && v.out == "err:zero-length-log" {
+					// Delete = ftruncate(0) + unlink: the unlink is lost, the truncation is not
+					return "[F17:zero-length-log-file] "
+				}
+				return ""
+			})
+		}
+		// everything else that is unsynced lost together / random subsets of it (the F4 items
+		// stay: their loss is judged above, one at a time, so that it is attributed correctly)
+		f17 := func(it item) bool {
+			_, inVol := pw.vol[it.name]
+			d, inDur := pw.dur[it.name]
+			return it.kind == "entry" && !inVol && inDur && deadVol[d].size == 0 && pw.sync[d].size != 0
+		}
+		all := map[int]bool{}
+		for ix, it := range items {
+			if !f4(it) && !f17(it) {
+				all[ix] = true
+			}
+		}
+		if len(all) > 1 {
+			run("worst", all, nil)
+			for r := 0; r < nrand; r++ {
+				sub := map[int]bool{}
+				for ix := range all {
+					if rng.Intn(2) == 0 {
+						sub[ix] = true
+					}
+				}
+				if len(sub) > 1 && len(sub) < len(all) {
+					run("random", sub, nil)
+				}
+			}
+		}
+	}
+}
+
+func crTokOfName(n string) string {
+	t, _ := crFileTok(n)
+	return t
+}
